@@ -8,6 +8,7 @@ import (
 	"runtime/debug"
 	"sort"
 	"strconv"
+	"strings"
 
 	"verif/internal/check"
 	"verif/internal/rules"
@@ -66,7 +67,25 @@ func main() {
 				}
 			}
 		}()
-		f(rules.NewCtx(rep, tier))
+		ctx := rules.NewCtx(rep, tier)
+		f(ctx)
+		// the property also depends on the layers below it: run their rules too (same loaded program), so that a
+		// defect in a lower layer that breaks this property is reported by this property's check as well
+		expl, asm := rep.Explanation, rep.Assumptions
+		var ran []string
+		if os.Getenv("VERIF_NO_DEPS") == "" {
+			for _, dep := range rules.DepsClosure(id) {
+				if g, ok := rules.Registry[dep]; ok {
+					g(ctx)
+					ran = append(ran, dep)
+				}
+			}
+		}
+		rep.Explanation, rep.Assumptions = expl, asm
+		if len(ran) > 0 {
+			rep.Explanation += "  The rules of the lower layers this property rests on (" + strings.Join(ran, ", ") + ") are evaluated in the same run; their obligations appear under their own rule identifiers."
+			rep.Extra["lower_layer_checks_included"] = ran
+		}
 		return -1
 	}()
 	if code == 2 {
